@@ -388,7 +388,14 @@ def run_history(case, res):
             if backend == "rec":
                 key = "user-%d" % r.randrange(3)
                 val = "V%d" % step
-                t.cache.set(key, val)
+                nlog = len(Rec.log)
+                direct = {"opt": "direct"} if r.random() < 0.5 else {}
+                t.cache.set(key, val, **direct)
+                # the programmatic interface: the Template's cache arguments overridden by what the call gives
+                sets = [kw for op, cid, k2, kw in Rec.log[nlog:] if op == "set"]
+                want = dict(spec["tpl_args"], **direct)
+                if len(sets) != 1 or {k2: v for k2, v in sets[0].items() if k2 != "context"} != want:
+                    res.violate("set-kwargs", "%s: cache.set(%r, ..., **%r) reached the backend with %r, expected %r" % (what, key, direct, sets, want), replay_case=rc)
                 got = t.cache.get(key)
                 if got != val:
                     res.violate("set-get", "%s: cache.get(%r) = %r after set(%r)" % (what, key, got, val), replay_case=rc)
